@@ -8,24 +8,21 @@ theorem grantInv {c : Nat} {s : S} (h : Reachable c s) : GrantInv s := by
   | step s s' hr st ih =>
     have t := tree hr
     cases st with
-    | useNeg => exact grantInv_same ih rfl rfl rfl rfl rfl rfl rfl (fun _ h => h) rfl
     | useZero l hl h0 h1 =>
       refine grantInv_grant ih l 0 hl rfl rfl rfl rfl ?_ rfl rfl (fun _ => rfl) rfl
       funext x
-      simp [doUseZero, charge]
-    | useClosed => exact grantInv_same ih rfl rfl rfl rfl rfl rfl rfl (fun _ h => h) rfl
-    | useTooBig => exact grantInv_same ih rfl rfl rfl rfl rfl rfl rfl (fun _ h => h) rfl
+      simp [doUseZero, unlock, charge]
     | useGrant l amt hl ha h0 h1 h2 h3 => exact grantInv_grant ih l amt hl rfl rfl rfl rfl rfl rfl rfl (fun _ => rfl) rfl
-    | useWait => exact grantInv_same ih rfl rfl rfl rfl rfl rfl rfl (fun _ h => h) rfl
-    | newChild p cp hp h0 h1 => exact grantInv_newChild s p cp t ih
+    | newChild p cp hp h0 h1 =>
+      have g := grantInv_newChild s p cp t ih
+      exact ⟨g.period_le, g.chain_eq, g.cur_le, g.cur_eq, g.past, g.last_eq⟩
     | closeChild l hl hr' h0 h1 => exact grantInv_same ih rfl rfl rfl rfl rfl rfl rfl (resets_closeChild s l) rfl
-    | closeRoot => exact grantInv_same ih rfl rfl rfl rfl rfl rfl rfl (fun _ h => h) rfl
-    | tickFires => exact grantInv_same ih rfl rfl rfl rfl rfl rfl rfl (fun _ h => h) rfl
-    | tickRuns h1 h0 => exact grantInv_tick s (capInv hr) (queueOk hr) ih
-    | doneReceived => exact grantInv_same ih rfl rfl rfl rfl rfl rfl rfl (fun _ h => h) rfl
-    | drain => exact grantInv_same ih rfl rfl rfl rfl rfl rfl rfl (fun _ h => h) rfl
+    | tickRuns h1 h0 =>
+      have g := grantInv_tick s (capInv hr) (queueOk hr) ih
+      exact ⟨g.period_le, g.chain_eq, g.cur_le, g.cur_eq, g.past, g.last_eq⟩
     | setCap l cc hl h0 =>
       exact ⟨ih.period_le, ih.chain_eq, ih.cur_le, ih.cur_eq, fun hz => absurd hz (Nat.succ_ne_zero _), ih.last_eq⟩
+    | _ => exact grantInv_same ih rfl rfl rfl rfl rfl rfl rfl (fun _ h => h) rfl
 
 /-- in no period is more granted to a limiter and its descendants than its capacity (while `SetCap` is not used) -/
 theorem gsum_le_cap {c : Nat} {s : S} (h : Reachable c s) (hz : s.setCaps = 0) (p x : Nat) :
@@ -70,13 +67,7 @@ theorem ok_granted {c : Nat} {s : S} (h : Reachable c s) (id : Nat) (hok : (id, 
       rcases List.mem_append.mp hok with h | h
       · simp at h
       · exact ih h
-    | useWait => exact ih hok
-    | newChild => exact ih hok
-    | closeChild => exact ih hok
-    | closeRoot => exact ih hok
-    | tickFires => exact ih hok
-    | doneReceived => exact ih hok
-    | setCap => exact ih hok
+    | _ => exact ih hok
 
 /-- no grant is ever made to a limiter that is closed at that moment -/
 theorem grant_open {s s' : S} (st : Step s s') : ∀ g ∈ s'.glog, g ∈ s.glog ∨ s.closed g.lim = false := by
@@ -183,56 +174,167 @@ theorem head_served {c : Nat} {s : S} (h : Reachable c s) (r : Req) (rest : List
 
 /-! ### Close progress -/
 
-/-- the goroutine in root `Close` is blocked on `done` and neither it nor the ticker goroutine can take a step -/
-def Deadlocked (s : S) : Prop := s.cpc = .send ∧ ∀ s', Step s s' → s'.tpc = s.tpc ∧ s'.cpc = s.cpc
+/-- the goroutine in root `Close` is inside `Close` (it holds the lock, or has marked the tree, or is blocked on `done`) -/
+def InClose (s : S) : Prop := s.cpc = .crit ∨ s.cpc = .marked ∨ s.cpc = .send ∨ s.cpc = .unl
 
-theorem close_progress {c : Nat} {s : S} (h : Reachable c s) (hs : s.cpc = .send) :
-    ∃ s', Step s s' ∧ (s'.cpc = .ret ∨ s'.tpc ≠ s.tpc) := by
-  have hl := lockFree h
-  cases ht : s.tpc with
-  | sel => exact ⟨_, Step.doneReceived s ht hs, Or.inl rfl⟩
-  | tlock => exact ⟨_, Step.tickRuns s ht hl, Or.inr (by simp [doTickRuns])⟩
-  | dlock => exact ⟨_, Step.drain s ht hl, Or.inr (by simp [doDrain])⟩
-  | tend =>
-    have := closer_returned h (Or.inl ht)
-    rw [hs] at this; cases this
+/-- a state of the system `R` in which the closer is inside `Close` and no step can change the position of the closer
+    or of the ticker goroutine, nor who holds the lock: neither of them, nor the holder of the lock, can move -/
+def DeadlockedIn (R : S → S → Prop) (s : S) : Prop :=
+  InClose s ∧ ∀ s', R s s' → s'.tpc = s.tpc ∧ s'.cpc = s.cpc ∧ s'.holder = s.holder
+
+def Deadlocked (s : S) : Prop := DeadlockedIn Step s
+
+/-- whoever holds the lock has an enabled step, and the lock is free again after at most two steps of the holder -/
+theorem lock_released {c : Nat} {s : S} (h : Reachable c s) (hh : s.holder ≠ .free) :
+    ∃ s', Steps s s' ∧ s'.holder = .free := by
+  obtain ⟨h1, h2, _⟩ := lockInv h
+  cases hq : s.holder with
+  | free => exact absurd hq hh
+  | api => exact ⟨_, .tail _ _ _ (.refl _) (.apiRead s hq), rfl⟩
+  | ticker =>
+    rcases h1.mp hq with ht | ht | ht | ht
+    · exact ⟨doTickUnlock (doTickRuns s), .tail _ _ _ (.tail _ _ _ (.refl _) (.tickRuns s ht hq)) (.tickUnlock _ rfl), rfl⟩
+    · exact ⟨_, .tail _ _ _ (.refl _) (.tickUnlock s ht), rfl⟩
+    · exact ⟨doDrainUnlock (doDrain s), .tail _ _ _ (.tail _ _ _ (.refl _) (.drain s ht hq)) (.drainUnlock _ rfl), rfl⟩
+    · exact ⟨_, .tail _ _ _ (.refl _) (.drainUnlock s ht), rfl⟩
+  | closer =>
+    rcases h2.mp hq with hc | hc
+    · cases h0 : s.closed 0 with
+      | true => exact ⟨_, .tail _ _ _ (.refl _) (.closeSkip s h0 hc), rfl⟩
+      | false =>
+        exact ⟨doCloseUnlock (doCloseRootMark s),
+          .tail _ _ _ (.tail _ _ _ (.refl _) (.closeRoot s hq h0 hc)) (.closeUnlock _ rfl), rfl⟩
+    · exact ⟨_, .tail _ _ _ (.refl _) (.closeUnlock s hc), rfl⟩
+
+/-- while the closer is inside `Close`, some step of the closer, of the ticker goroutine or of the holder of the lock is
+    enabled -/
+theorem close_progress {c : Nat} {s : S} (h : Reachable c s) (hs : InClose s) :
+    ∃ s', Step s s' ∧ (s'.tpc ≠ s.tpc ∨ s'.cpc ≠ s.cpc ∨ s'.holder ≠ s.holder) := by
+  obtain ⟨h1, h2, h3⟩ := lockInv h
+  rcases hs with hc | hc | hc | hc
+  · cases h0 : s.closed 0 with
+    | true => exact ⟨_, .closeSkip s h0 hc, Or.inr (Or.inl (by simp [doCloseSkip, hc]))⟩
+    | false =>
+      exact ⟨_, .closeRoot s (h2.mpr (Or.inl hc)) h0 hc, Or.inr (Or.inl (by simp [doCloseRootMark, hc]))⟩
+  · exact ⟨_, .closeUnlock s hc, Or.inr (Or.inl (by simp [doCloseUnlock, hc]))⟩
+  · -- blocked on `done`: the closer does not hold the lock
+    have hnc : s.holder ≠ .closer := by
+      intro hq; rcases h2.mp hq with h | h <;> rw [hc] at h <;> cases h
+    cases ht : s.tpc with
+    | sel => exact ⟨_, .doneReceived s ht hc, Or.inl (by simp [doDoneReceived, ht])⟩
+    | tlock =>
+      cases hq : s.holder with
+      | free => exact ⟨_, .tickLock s ht hq, Or.inl (by simp [doTickLock, ht])⟩
+      | api => exact ⟨_, .apiRead s hq, Or.inr (Or.inr (by simp [unlock, hq]))⟩
+      | closer => exact absurd hq hnc
+      | ticker => rcases h1.mp hq with h | h | h | h <;> rw [ht] at h <;> cases h
+    | tcrit => exact ⟨_, .tickRuns s ht (h1.mpr (Or.inl ht)), Or.inl (by simp [doTickRuns, ht])⟩
+    | tunl => exact ⟨_, .tickUnlock s ht, Or.inl (by simp [doTickUnlock, ht])⟩
+    | dlock => have := closer_returned h (Or.inl ht); rw [hc] at this; cases this
+    | dcrit => have := closer_returned h (Or.inr (Or.inl ht)); rw [hc] at this; cases this
+    | dunl => have := closer_returned h (Or.inr (Or.inr (Or.inl ht))); rw [hc] at this; cases this
+    | tend => have := closer_returned h (Or.inr (Or.inr (Or.inr ht))); rw [hc] at this; cases this
+  · exact absurd hc h3
 
 theorem not_deadlocked {c : Nat} {s : S} (h : Reachable c s) : ¬ Deadlocked s := by
   intro ⟨hs, hd⟩
   obtain ⟨s', st, hp⟩ := close_progress h hs
-  have := hd s' st
-  rcases hp with hp | hp
-  · rw [this.2, hs] at hp; cases hp
-  · exact hp this.1
+  obtain ⟨a, b, d⟩ := hd s' st
+  rcases hp with hp | hp | hp
+  · exact hp a
+  · exact hp b
+  · exact hp d
 
-/-- from every reachable state in which root `Close` is blocked on `done`, at most two steps of the ticker goroutine
-    lead to its return -/
+theorem steps_trans {s t u : S} (a : Steps s t) (b : Steps t u) : Steps s u := by
+  induction b with
+  | refl => exact a
+  | tail v w _ hw ih => exact .tail _ _ _ ih hw
+
+/-- from every reachable state in which root `Close` is blocked on `done` there is a continuation — steps of the holder
+    of the lock and of the ticker goroutine only — that completes the hand-over -/
 theorem close_can_return {c : Nat} {s : S} (h : Reachable c s) (hs : s.cpc = .send) :
     ∃ s', Steps s s' ∧ s'.cpc = .ret := by
-  have hl := lockFree h
+  -- first let the holder (if any) release the lock, keeping the closer at `send`; then run the ticker to its select
+  obtain ⟨h1, h2, h3⟩ := lockInv h
+  have hnc : s.holder ≠ .closer := by
+    intro hq; rcases h2.mp hq with h | h <;> rw [hs] at h <;> cases h
   cases ht : s.tpc with
-  | sel => exact ⟨_, .tail _ _ _ (.refl _) (Step.doneReceived s ht hs), rfl⟩
+  | sel => exact ⟨_, .tail _ _ _ (.refl _) (.doneReceived s ht hs), rfl⟩
   | tlock =>
-    refine ⟨doDoneReceived (doTickRuns s), .tail _ _ _ (.tail _ _ _ (.refl _) (Step.tickRuns s ht hl)) ?_, rfl⟩
-    exact Step.doneReceived (doTickRuns s) rfl hs
-  | dlock =>
-    have := closer_returned h (Or.inr ht)
-    rw [hs] at this; cases this
-  | tend =>
-    have := closer_returned h (Or.inl ht)
-    rw [hs] at this; cases this
+    cases hq : s.holder with
+    | free =>
+      refine ⟨doDoneReceived (doTickUnlock (doTickRuns (doTickLock s))), ?_, rfl⟩
+      exact .tail _ _ _ (.tail _ _ _ (.tail _ _ _ (.tail _ _ _ (.refl _) (.tickLock s ht hq)) (.tickRuns _ rfl rfl))
+        (.tickUnlock _ rfl)) (.doneReceived _ rfl hs)
+    | api =>
+      refine ⟨doDoneReceived (doTickUnlock (doTickRuns (doTickLock (unlock s)))), ?_, rfl⟩
+      exact .tail _ _ _ (.tail _ _ _ (.tail _ _ _ (.tail _ _ _ (.tail _ _ _ (.refl _) (.apiRead s hq))
+        (.tickLock _ ht rfl)) (.tickRuns _ rfl rfl)) (.tickUnlock _ rfl)) (.doneReceived _ rfl hs)
+    | closer => exact absurd hq hnc
+    | ticker => rcases h1.mp hq with h | h | h | h <;> rw [ht] at h <;> cases h
+  | tcrit =>
+    refine ⟨doDoneReceived (doTickUnlock (doTickRuns s)), ?_, rfl⟩
+    exact .tail _ _ _ (.tail _ _ _ (.tail _ _ _ (.refl _) (.tickRuns s ht (h1.mpr (Or.inl ht)))) (.tickUnlock _ rfl))
+      (.doneReceived _ rfl hs)
+  | tunl =>
+    refine ⟨doDoneReceived (doTickUnlock s), ?_, rfl⟩
+    exact .tail _ _ _ (.tail _ _ _ (.refl _) (.tickUnlock s ht)) (.doneReceived _ rfl hs)
+  | dlock => have := closer_returned h (Or.inl ht); rw [hs] at this; cases this
+  | dcrit => have := closer_returned h (Or.inr (Or.inl ht)); rw [hs] at this; cases this
+  | dunl => have := closer_returned h (Or.inr (Or.inr (Or.inl ht))); rw [hs] at this; cases this
+  | tend => have := closer_returned h (Or.inr (Or.inr (Or.inr ht))); rw [hs] at this; cases this
 
-/-- with the lock kept during the hand-over (the code before the repair) the state "closer blocked on `done`, ticker
-    goroutine waiting for the lock" is stuck for ever -/
-theorem held_lock_is_stuck (s : S) (h0 : s.lockHeld = true) (h1 : s.tpc = .tlock) (h2 : s.cpc = .send) : Deadlocked s := by
-  refine ⟨h2, ?_⟩
+/-! ### the unrepaired order dead-locks -/
+
+/-- the schedule: a tick fires (the ticker goroutine now waits for the lock); root `Close` takes the lock and marks the
+    tree; it now has to hand `done` over while holding the lock -/
+def stuckState : S := doCloseRootMark (doCloseLock (doTickFires (init 5)))
+
+theorem stuckState_reachableU : ReachableU 5 stuckState := by
+  have r0 : ReachableU 5 (init 5) := .init
+  have r1 : ReachableU 5 (doTickFires (init 5)) :=
+    .step _ _ r0 (.common _ _ (.tickFires _ rfl) (by intro h; cases h.1))
+  have r2 : ReachableU 5 (doCloseLock (doTickFires (init 5))) :=
+    .step _ _ r1 (.common _ _ (.closeLock _ rfl rfl) (by intro h; cases h.1))
+  exact .step _ _ r2 (.common _ _ (.closeRoot _ rfl rfl rfl) (by intro h; cases h.1))
+
+/-- … and nothing can move any more: the closer's send needs the ticker goroutine at its `select`, the ticker goroutine
+    needs the lock, the lock is held by the closer -/
+theorem stuckState_deadlocked : DeadlockedIn StepU stuckState := by
+  refine ⟨Or.inr (Or.inl rfl), ?_⟩
   intro s' st
+  have hh : stuckState.holder = .closer := rfl
+  have ht : stuckState.tpc = .tlock := rfl
+  have hc : stuckState.cpc = .marked := rfl
+  generalize stuckState = s at st hh ht hc
   cases st with
-  | tickFires h => rw [h1] at h; cases h
-  | tickRuns _ h => rw [h0] at h; cases h
-  | doneReceived h _ => rw [h1] at h; cases h
-  | drain h _ => rw [h1] at h; cases h
-  | closeRoot h => rw [h0] at h; cases h
-  | _ => exact ⟨rfl, rfl⟩
+  | sendHeld h1 h2 => rw [ht] at h2; cases h2
+  | unlockAfter h => rw [hc] at h; cases h
+  | common =>
+    rename_i st0 hne
+    cases st0 with
+    | useNeg => exact ⟨rfl, rfl, rfl⟩
+    | apiLock h => rw [hh] at h; cases h
+    | apiRead h => rw [hh] at h; cases h
+    | useClosed l hl h0 => rw [hh] at h0; cases h0
+    | useZero l hl h0 => rw [hh] at h0; cases h0
+    | useTooBig l amt hl h0 => rw [hh] at h0; cases h0
+    | useGrant l amt hl ha h0 => rw [hh] at h0; cases h0
+    | useWait l amt hl ha h0 => rw [hh] at h0; cases h0
+    | newChild p cp hp h0 => rw [hh] at h0; cases h0
+    | closeChild l hl hr h0 => rw [hh] at h0; cases h0
+    | setCap l cp hl h0 => rw [hh] at h0; cases h0
+    | closeLock h0 => rw [hh] at h0; cases h0
+    | closeRoot h0 h1 h2 => rw [hc] at h2; cases h2
+    | closeSkip h1 h2 => rw [hc] at h2; cases h2
+    | closeUnlock h2 => exact absurd ⟨hc, rfl⟩ hne
+    | tickFires h => rw [ht] at h; cases h
+    | tickLock h1 h0 => rw [hh] at h0; cases h0
+    | tickRuns h1 => rw [ht] at h1; cases h1
+    | tickUnlock h1 => rw [ht] at h1; cases h1
+    | doneReceived h1 => rw [ht] at h1; cases h1
+    | drainLock h1 => rw [ht] at h1; cases h1
+    | drain h1 => rw [ht] at h1; cases h1
+    | drainUnlock h1 => rw [ht] at h1; cases h1
 
 end RL
